@@ -1016,6 +1016,16 @@ func (ns *NamespaceStore) SealNamespace(ctx context.Context, path string) error 
 		return errors.New("namespace from context is not the parent of the target namespace to seal")
 	}
 
+	// The entry of a namespace lives in the namespace store of its direct
+	// parent. The namespace in the context only has to be an ancestor (the
+	// re-seal after a failed unseal passes the root namespace and a full
+	// path), so do not take it for the parent.
+	parentPath, _ := namespaceToSeal.ParentPath()
+	parent = ns.namespacesByPath.Get(parentPath)
+	if parent == nil {
+		return fmt.Errorf("namespace %q has no parent", namespaceToSeal.Path)
+	}
+
 	// Mark the namespace as manually sealed before we seal it; this ensures
 	// future loads will reflect the desired status. Additionally, standbys will
 	// see this update and seal the namespace accordingly.
